@@ -3,7 +3,7 @@ import ast
 
 from ..model import AnalysisError, dotted, unparse
 from ..structfmt import linform, lin_eq, local_defs, reaching_def, resolve_local
-from ..util import U, enum_paths, walk_no_nested, is_yield_call
+from ..util import POS, FACTS, FACTS_I, U, enum_paths, walk_no_nested, is_yield_call
 from ..paths import call_attr, call_name
 from ..sinkproto import SinkProto, check_request, check_response, kinds_of, describe
 from . import c10, c11
@@ -74,7 +74,7 @@ def r1(ctx):
     sets = [e for e in ev if e.kind == 'call' and call_attr(e.node) in ('set', 'set_exception') and U(e.node.func.value) == ar]
     ctx.ob('C01.R1', f, 'terminal completes the AsyncResult exactly once', len(sets) == 1,
            'a path of the terminal sink completes the caller %d times' % len(sets), WHY_ONCE)
-    fs = [(U(e.node).replace(' ', ''), e.info) for e in ev if e.kind == 'cond']
+    fs = FACTS(ev)
     if ('msg.error', True) in fs and sets:
       ok = call_attr(sets[0].node) == 'set_exception' and '_WrapException' in U(sets[0].node)
       ctx.ob('C01.R1', f, 'an error message completes with its exception', ok, 'error path completes with %s' % U(sets[0].node), 'an error reply must raise at the caller')
@@ -117,7 +117,7 @@ def r2(ctx):
            'pushes %d, spawns %d' % (len(push), len(spawn)), WHY_ONCE)
     ctx.ob('C01.R2', f, 'the same AsyncResult is returned', bool(ret) and U(ret[-1].value) == ar, 'returns %s' % (U(ret[-1].value) if ret else None), WHY_ONCE)
     # deadline stored unchanged
-    fs = [(U(e.node).replace(' ', ''), e.info) for e in ev if e.kind == 'cond']
+    fs = FACTS(ev)
     dl = f.params[3]
     st = [e.node for e in ev if e.kind == 'stmt' and isinstance(e.node, ast.Assign) and 'Deadline.KEY' in U(e.node.targets[0])]
     if (dl, True) in fs:
@@ -151,7 +151,7 @@ def r3(ctx):
   for ev, ex in enum_paths(ctx, f):
     pops = [i for i, e in enumerate(ev) if e.kind == 'call' and U(e.node.func) == 'self.Pop']
     fwd = [(i, e.node) for i, e in enumerate(ev) if e.kind == 'call' and call_attr(e.node) == 'AsyncProcessResponse' and len(e.node.args) == 4]
-    fs = [(U(e.node).replace(' ', ''), e.info, i) for i, e in enumerate(ev) if e.kind == 'cond']
+    fs = FACTS_I(ev)
     if pops:
       n += 1
       guarded = any(c == 'self.Any()' and t and i < pops[0] for c, t, i in fs)
@@ -195,7 +195,7 @@ def r3(ctx):
       if not idx:
         continue
       found = True
-      fs = [(U(e.node).replace(' ', ''), e.info) for e in ev[:idx[0]] if e.kind == 'cond']
+      fs = FACTS(ev[:idx[0]])
       if not ((recv + '.Any()', True) in fs or ('not' + recv + '.Any()', False) in fs):
         ok = False
     ctx.ob('C01.R3', g, 'Pop() on %s is guarded by Any()' % recv, ok and found, 'Pop() without a dominating Any() check on the same stack',
@@ -235,7 +235,7 @@ def r45(ctx):
   lb = prog.func('scales/loadbalancer/base.py', 'LoadBalancerSink.AsyncProcessRequest')
   for cb in lb.nested.values():
     n5 += check_request(ctx, sp, 'C01.R5', cb, lb.params[1], why5, label='deferred until open',
-                        allow_drop=lambda facts: any(c.endswith('.Get()') and t for c, t in facts) or ('nottimeout_eventornottimeout_event.Get()', False) in facts)
+                        allow_drop=lambda facts: any(c.endswith('.Get()') and t for c, t in POS(facts)) or ('nottimeout_eventornottimeout_event.Get()', False) in facts)
   hb = prog.func('scales/loadbalancer/heap.py', 'HeapBalancerSink._AsyncProcessRequestImpl')
   n5 += check_request(ctx, sp, 'C01.R5', hb, hb.params[1], why5, label='balancer dispatch')
   pq = prog.func('scales/pool/watermark.py', 'WatermarkPoolSink._ProcessQueue')
@@ -286,7 +286,7 @@ def r6(ctx):
     if not truthy:
       ctx.ob('C01.R6', f, 'no deadline: forwarded unchanged', ks.count('FWD') == 1 and 'COMPLETER' not in ks, 'no-deadline path: %s' % describe(items), why, nontrivial=False)
       continue
-    expired = [(c, t) for c, t in facts if c.replace('(', '').replace(')', '') in ('%s<now' % dl, 'now>%s' % dl, '%s<=now' % dl, 'now>=%s' % dl, '%s<time.time' % dl)]
+    expired = [(c, t) for c, t in POS(facts) if c.replace('(', '').replace(')', '') in ('%s<now' % dl, 'now>%s' % dl, '%s<=now' % dl, 'now>=%s' % dl, '%s<time.time' % dl)]
     if expired and expired[0][1]:
       n_exp += 1
       ctx.ob('C01.R6', f, 'expired call is answered with no forwarding', 'UP' in ks and 'FWD' not in ks and 'COMPLETER' not in ks,
@@ -322,7 +322,7 @@ def r6(ctx):
   for ev, ex in enum_paths(ctx, h):
     ups = [(i, e.node) for i, e in enumerate(ev) if e.kind == 'call' and call_attr(e.node) in ('AsyncProcessResponseMessage', 'AsyncProcessResponse') and U(e.node.func.value) == hstack]
     sets = [i for i, e in enumerate(ev) if e.kind == 'call' and U(e.node.func) == evt + '.Set']
-    fs = [(U(e.node).replace(' ', ''), e.info) for e in ev if e.kind == 'cond']
+    fs = FACTS(ev)
     ok = len(ups) == 1 and 'TimeoutError()' in U(ups[0][1]) + ''.join(U(e.node) for e in ev if e.kind == 'stmt')
     if ok:
       a = resolve_local(ups[0][1].args[-1], local_defs(h.node), ups[0][1].lineno)
@@ -370,7 +370,7 @@ def r7(ctx):
   darg = call[0].args[3]
   n = 0
   for ev, ex in enum_paths(ctx, f):
-    fs = [(U(e.node).replace(' ', ''), e.info) for e in ev if e.kind == 'cond']
+    fs = FACTS(ev)
     last = None
     for e in ev:
       if e.kind == 'stmt' and isinstance(e.node, ast.Assign) and U(e.node.targets[0]) == U(darg):
